@@ -46,6 +46,28 @@ func WorkingSchemas(s *sqleng.Session) (map[string]schema.Schema, error) {
 	return out, nil
 }
 
+// SchemaHashes returns the hash of the stored schema message of every user table of the working root.
+func SchemaHashes(s *sqleng.Session) (map[string]string, error) {
+	ctx, err := SqlCtx(s)
+	if err != nil {
+		return nil, err
+	}
+	roots, ok := s.Sess.GetRoots(ctx, s.E.DBName)
+	if !ok {
+		return nil, fmt.Errorf("no roots for %s", s.E.DBName)
+	}
+	out := map[string]string{}
+	err = roots.Working.IterTables(ctx, func(name doltdb.TableName, table *doltdb.Table, sch schema.Schema) (bool, error) {
+		h, err := table.GetSchemaHash(ctx)
+		if err != nil {
+			return true, err
+		}
+		out[name.Name] = h.String()
+		return false, nil
+	})
+	return out, err
+}
+
 // TagLines renders "table.column=tag" for every column, sorted.
 func TagLines(schs map[string]schema.Schema) []string {
 	var out []string
